@@ -32,6 +32,11 @@ Tables regenerated from the tree under test on every run: `Spine/Generated/Shape
   list `wiringFailing` reads, passes and assigns one list field, persists only under `success && persist` and
   returns the data; `wiringFailing` is exactly the set of rows that do not (three on the pinned tree).
 
+* `c02_selector_encodings`, `c02_repaired_selectors_total`, `c02_repaired_selectormatch_never_panics` — how the
+  selector fields of every list type are encoded for the model under each behaviour of `SelectorMatch`
+  (`Tables.SelFacts`, probed on the tree: nil item field ⇒ panic / no match; struct values compared with `!=` /
+  deeply), and that with nil check + deep comparison no selector on any list type can make `SelectorMatch` panic.
+
 **Refuted (kernel-checked witnesses)**
 * `c02_full_sorted_refuted` — a full update is stored as received: unordered input stays unordered
   (finding `fastpath-stores-as-received`); `c02_full_sorted_partial` is the region where the clause holds.
@@ -275,6 +280,42 @@ theorem c02_rules_not_idempotent_witness :
     and are distinct, a struct key comes last, the write-check field exists and is no identifier, selector
     fields are classified and point into the item, the elements struct mirrors the item struct -/
 theorem c02_all_shapes : ∀ t ∈ Generated.listTypes, shapeOK t = true := by decide +kernel
+
+/-- the model's `selMap` of every list type, for every way `SelectorMatch` may treat nil item fields and struct
+    values (`SelFacts`, probed by the harness on the tree under test), only holds entries the engine family gives a
+    meaning: nothing, an item field, `n` ("never carried"), or `n + 1 + i` with `i` an item field (non-comparable
+    struct under `!=` behind the nil check) -/
+theorem c02_selector_encodings : ∀ t ∈ Generated.listTypes, ∀ f ∈ [SelFacts.mk true false, ⟨false, false⟩, ⟨false, true⟩, ⟨true, true⟩],
+    (shapeFor f t).selMap.all (fun e => match e with
+      | none => true
+      | some i => i ≤ t.shape.n || (!f.nilPanics && !f.structDeep && i - t.shape.n - 1 < t.shape.n)) = true := by
+  decide +kernel
+
+/-- on a tree with the nil check and deep comparison (`SelFacts` = ⟨false, true⟩, the repaired `SelectorMatch`)
+    no selector on any list type can make `SelectorMatch` panic: every entry is an item field or `n` -/
+theorem c02_repaired_selectors_total : ∀ t ∈ Generated.listTypes,
+    ∀ (j i : Nat), ((shapeFor ⟨false, true⟩ t).selMap[j]?).join = some i → i ≤ (shapeFor ⟨false, true⟩ t).n := by
+  have h : ∀ t ∈ Generated.listTypes, (shapeFor ⟨false, true⟩ t).selMap.all (fun e => match e with
+      | none => true | some i => i ≤ (shapeFor ⟨false, true⟩ t).n) = true := by decide +kernel
+  intro t ht j i hji
+  have := h t ht
+  rw [List.all_eq_true] at this
+  cases hg : (shapeFor ⟨false, true⟩ t).selMap[j]? with
+  | none => rw [hg] at hji; cases hji
+  | some e =>
+    rw [hg] at hji
+    simp only [Option.join_some] at hji
+    subst hji
+    have := this (some i) (List.mem_of_getElem? hg)
+    simpa using this
+
+theorem c02_repaired_selectormatch_never_panics (t : ListType) (ht : t ∈ Generated.listTypes) (c : UCfg)
+    (hc : c.selNilPanics = false) (sel it : Item) :
+    ∃ b, selectorMatchF c (shapeFor ⟨false, true⟩ t) sel it = .ok b := by
+  rw [selectorMatchF_repaired c hc _ sel it (c02_repaired_selectors_total t ht)]
+  cases selectorMatch (shapeFor ⟨false, true⟩ t) sel it with
+  | ok b => exact ⟨b, rfl⟩
+  | panic s => exact ⟨false, rfl⟩
 
 /-- the combined form of DESIGN §8: every list type has a good shape and — unless the translator lists its
     method as failing (`c02_wiring_failing_exact` keeps that list honest) — a well-wired `UpdateList` -/
